@@ -28,12 +28,17 @@ type dtLeaf struct {
 	From   *ssa.BasicBlock // predecessor on the explored path (to resolve phis in Block)
 }
 
+// TableOf, when set, evaluates a package-level lookup table indexed by the
+// variable: the set of indices whose entry is true / non-zero.
+type tableEval func(g *ssa.Global) (*relang.Set, bool)
+
 type dtConfig struct {
-	Var   ssa.Value
-	Dom   *relang.Set
-	Leaf  func(b *ssa.BasicBlock) (string, bool) // effect reached in this block?
-	TagOf func(cond ssa.Value) string             // label for a non-variable condition ("" = untagged fork)
-	Max   int
+	Tables tableEval
+	Var    ssa.Value
+	Dom    *relang.Set
+	Leaf   func(b *ssa.BasicBlock) (string, bool) // effect reached in this block?
+	TagOf  func(cond ssa.Value) string            // label for a non-variable condition ("" = untagged fork)
+	Max    int
 }
 
 func cmpSplit(op token.Token, k int64, s *relang.Set, varOnLeft bool) (t, f *relang.Set) {
@@ -110,6 +115,14 @@ func decisionTable(start *ssa.BasicBlock, cfg dtConfig) []dtLeaf {
 				t, f, ok := split(c.X, s, path, depth+1)
 				return f, t, ok
 			}
+			// table[c]: load of &table[c] with table a package-level array
+			if ia, ok := c.X.(*ssa.IndexAddr); ok && c.Op == token.MUL && cfg.Tables != nil {
+				if g, ok := ia.X.(*ssa.Global); ok && strip(ia.Index) == cfg.Var {
+					if ts, ok := cfg.Tables(g); ok {
+						return s.Intersect(ts), s.Minus(ts), true
+					}
+				}
+			}
 		case *ssa.BinOp:
 			if strip(c.X) == cfg.Var {
 				if kv, ok := constInt(c.Y); ok {
@@ -121,6 +134,16 @@ func decisionTable(start *ssa.BasicBlock, cfg dtConfig) []dtLeaf {
 				if kv, ok := constInt(c.X); ok {
 					if t, f := cmpSplit(c.Op, kv, s, false); t != nil {
 						return t, f, true
+					}
+				}
+			}
+		case *ssa.Index:
+			if cfg.Tables != nil {
+				if u, ok := c.X.(*ssa.UnOp); ok {
+					if g, ok := u.X.(*ssa.Global); ok && strip(c.Index) == cfg.Var {
+						if ts, ok := cfg.Tables(g); ok {
+							return s.Intersect(ts), s.Minus(ts), true
+						}
 					}
 				}
 			}
@@ -366,4 +389,74 @@ func constBool(v ssa.Value) (bool, bool) {
 		return false, false
 	}
 	return constant.BoolVal(c.Value), true
+}
+
+// constBoolTables evaluates package-level [N]bool / [N]uint8 arrays of a
+// repository package: composite-literal initialisers and constant-index
+// stores in init functions. A table written anywhere else is not evaluated.
+func constBoolTables(p *Program, rel string) tableEval {
+	cache := map[*ssa.Global]*relang.Set{}
+	bad := map[*ssa.Global]bool{}
+	stores, _ := boolTables(p, rel)
+	return func(g *ssa.Global) (*relang.Set, bool) {
+		if bad[g] {
+			return nil, false
+		}
+		if s, ok := cache[g]; ok {
+			return s, true
+		}
+		if g.Pkg != p.SSAPkg(rel) {
+			return nil, false
+		}
+		set := &relang.Set{}
+		// literal initialiser
+		if e, pk := p.PkgVarInit(rel, g.Name()); e != nil {
+			l := EvalLit(pk, e, g.Type().(*types.Pointer).Elem())
+			if litErr(l) == "" && l.Kind == "array" {
+				for i, k := range l.Keys {
+					kv, _ := k.Int()
+					on := false
+					if b, ok := l.Vals[i].Bool(); ok {
+						on = b
+					} else if n, ok := l.Vals[i].Int(); ok {
+						on = n != 0
+					}
+					if on {
+						set = set.Union(relang.NewSet(int32(kv), int32(kv)))
+					}
+				}
+			} else {
+				bad[g] = true
+				return nil, false
+			}
+		}
+		for k, v := range stores[g.Name()] {
+			if v {
+				set = set.Union(relang.NewSet(int32(k), int32(k)))
+			}
+		}
+		// any non-constant write disqualifies the table
+		for _, f := range p.SrcFuncs() {
+			for _, b := range f.Blocks {
+				for _, in := range b.Instrs {
+					if st, ok := in.(*ssa.Store); ok {
+						if ia, ok := st.Addr.(*ssa.IndexAddr); ok && ia.X == ssa.Value(g) {
+							isInit := strings.HasPrefix(f.Name(), "init")
+							_, okIdx := constInt(ia.Index)
+							if !isInit || !okIdx {
+								bad[g] = true
+								return nil, false
+							}
+						}
+						if st.Addr == ssa.Value(g) && !(f.Synthetic != "" && f.Name() == "init") {
+							bad[g] = true
+							return nil, false
+						}
+					}
+				}
+			}
+		}
+		cache[g] = set
+		return set, true
+	}
 }
